@@ -9,7 +9,7 @@ namespace Piqp.C04
 
 variable {K : Type}
 variable [Add K] [Sub K] [Mul K] [Div K] [Neg K] [Zero K] [One K] [LT K] [DecidableLT K] [LE K] [DecidableLE K]
-variable [NatCast K] [DecidableEq K] [Inhabited K]
+variable [NatCast K] [BEq K] [Inhabited K]
 variable {n p m : Nat}
 
 /-- `update` never changes the settings, the result vectors, the refinement flag or the back end: it only touches
